@@ -37,8 +37,8 @@ m = dict(
     setup_cmd='./setup.sh',
     hooks=dict(guard='memvid_verif (declared, unused: the analysis needs no source hooks)',
                enable='n/a - static analysis of the unmodified sources; the extractor is injected with RUSTC_WORKSPACE_WRAPPER',
-               baseline_off_cmd='cd /repo && cargo test --workspace --no-fail-fast --offline',
-               source_commits=sorted(set(fixes)), add_only=True),
+               baseline_off_cmd='cd /repo && cargo nextest run --workspace --no-fail-fast --offline --test-threads 8',
+               source_commits=[], add_only=True),
     engines=[dict(name='mvfacts+rules', path='driver/ rules/ check',
                   serves_properties=[c['property_id'] for c in checks],
                   kind_free_text='rustc_private MIR/HIR fact extractor (driver/) + Python rule engines (rules/): call graph, dominators, '
@@ -47,7 +47,8 @@ m = dict(
     notes='Static analysis only; every claim is partial and names the structural clause decided (DESIGN.md §4). '
           'known_findings.jsonl lists genuine defects found on the pinned tree. quick = the default feature configuration '
           '(C29: encryption); thorough = positive controls of the engines (fixtures/positive) + the default and the wide '
-          'feature configuration (encryption, hnsw_bench, replay, temporal_track, parallel_segments).',
+          'feature configuration (encryption, hnsw_bench, replay, temporal_track, parallel_segments). No hook commits exist in /repo '
+          '(hooks.source_commits is empty); the unguarded repairs of genuine defects are the `fix:` commits ' + ', '.join(sorted(set(fixes))) + ' (known_findings.jsonl, `fixed:` lines).',
     not_applicable=na,
 )
 out = os.path.join(HERE, 'MANIFEST.json')
